@@ -24,7 +24,7 @@ How it is evaluated
     by the same function as the called one):
          c09:<minimal history, steps joined by '>'>=><call>:<fresh outcome kind>-><outcome kind after the history>
 
-quick:    histories of length 1 within a kind (every step -> 14 representative calls, 11 suspicious steps -> every call), B2 -> B,
+quick:    histories of length 1 within a kind (every step -> ~15 representative calls, 8 suspicious steps -> every call), B2 -> B,
           suspicious steps of every kind -> representative calls of every other kind, histories of length 2 of suspicious steps
           within a kind, plus fixed long histories (length 12) within and across kinds
 thorough: all histories of length 1 (within a kind, across kinds, across instances) -> every call, length 2 and 3 of suspicious
@@ -804,24 +804,24 @@ def histories(h):
 
     steps_of = {k: [(k, o) for o in OPS[kind_of_label(k)]] for k in ("A", "B", "B2", "C", "D")}
     probes = {k: steps_of[k] if h.thorough else [(k, o) for o in PROBES[k]] for k in kinds}
-    n_susp = 8 if h.thorough else 4
+    n_susp = 8 if h.thorough else 3
     susp = {k: [(k, o) for o in SUSPICIOUS[kind_of_label(k)][:n_susp]] for k in ("A", "B", "B2", "C", "D")}
     # 1. history of length 1 within a kind -> call of the kind: thorough all x all; quick all x representative calls + suspicious x all
-    all_susp = {k: [(k, o) for o in SUSPICIOUS[k]] for k in kinds}
+    all_susp = {k: [(k, o) for o in SUSPICIOUS[k][:11 if h.thorough else 8]] for k in kinds}
     for k in kinds:
         for a in steps_of[k]:
             for c in steps_of[k]:
                 if h.thorough or c in probes[k] or a in all_susp[k]:
                     add((a, c))
     # 2. another parser built by the same function: B2 history -> B call
-    for a in (steps_of["B2"] if h.thorough else [("B2", o) for o in SUSPICIOUS["B"][:8]]):
+    for a in (steps_of["B2"] if h.thorough else [("B2", o) for o in SUSPICIOUS["B"][:5]]):
         for c in steps_of["B"]:
             add((a, c))
     # 3. another kind of parser: suspicious step (thorough: every step) of kind k1 -> calls of kind k2
     for k1 in kinds:
         for k2 in kinds:
             if k1 != k2:
-                for a in (steps_of[k1] if h.thorough else susp[k1][:4]):
+                for a in (steps_of[k1] if h.thorough else susp[k1]):
                     for c in probes[k2]:
                         add((a, c))
     # 4. histories of length 2 within a kind -> calls of the kind
@@ -849,7 +849,7 @@ def histories(h):
     everything = steps_of["A"] + steps_of["B"] + steps_of["C"] + steps_of["D"] + steps_of["B2"]
     for pool in (steps_of["A"], steps_of["B"], steps_of["C"], steps_of["D"], everything):
         n = len(pool)
-        for i in range(12 if not h.thorough else 60):
+        for i in range(8 if not h.thorough else 60):
             add(tuple(pool[(i * 7 + j * j * 3 + j * (i % 5 + 1)) % n] for j in range(12)))
     if h.thorough:
         for pool in (steps_of["A"], steps_of["B"], steps_of["C"], steps_of["D"], everything):
@@ -939,9 +939,9 @@ def main():
                      + ("all within-kind, cross-kind and cross-instance histories of length 1 -> every call; within-kind length 2 over 8 suspicious steps, length 3 "
                         "over 4 suspicious steps, mixed-parser length 2 over 4 suspicious steps each -> every call; 300 fixed + 2500 seeded random histories "
                         "of length 12" if h.thorough else
-                        "within-kind histories of length 1: every step -> 14 representative calls per kind and 11 suspicious steps -> every call; within-kind "
-                        "length 2 and cross-kind length 1 with 4 suspicious steps per kind as history -> representative calls; B2 -> B with 8 suspicious "
-                        "steps; 60 fixed long histories"))
+                        "within-kind histories of length 1: every step -> ~15 representative calls per kind and 8 suspicious steps -> every call; within-kind "
+                        "length 2 and cross-kind length 1 with 3 suspicious steps per kind as history -> representative calls; B2 -> B with 5 suspicious "
+                        "steps; 40 fixed long histories"))
     finally:
         os.environ.clear()
         os.environ.update(env0)
